@@ -55,8 +55,9 @@ Record game := mkG {
 (** ** check_game and init_states on typed descriptions *)
 Definition msg_tl_len := "The transition list must have the same number of elements as states in the game."%string.
 Definition msg_rw_len := "The reward list must have the same number of elements as states in the game."%string.
-Definition msg_min_empty := "min() arg is an empty sequence"%string.
-Definition msg_max_empty := "max() arg is an empty sequence"%string.
+(* CPython 3.12 wording (3.11 and older say "min() arg is an empty sequence") *)
+Definition msg_min_empty := "min() iterable argument is empty"%string.
+Definition msg_max_empty := "max() iterable argument is empty"%string.
 Definition msg_rw_neg := "Rewards must be positive."%string.
 Definition msg_fin_range := "Final states must be in the range of the number of states."%string.
 Definition msg_ns_range := "The next state must be in the range of the number of states."%string.
